@@ -30,3 +30,5 @@ func (c *Ctx) NextCase() int {
 type Driver func(c *Ctx) error
 
 var Registry = map[string]Driver{}
+
+func newRand(seed int64) *rand.Rand { return rand.New(rand.NewSource(seed)) }
